@@ -471,8 +471,8 @@ Proof. destruct t; reflexivity. Qed.
 Lemma leaf_of_selem l : leaf_wf l -> leaf_of (selem_of_l l) = ROk (leaf_of_l l).
 Proof.
   intros W. unfold leaf_of, selem_of_l, leaf_of_l, desc_of, leaf_wf in *.
-  cbn [se_nchildren se_type se_tlen se_rep se_name se_conv se_logical]. rewrite ptype_of_to.
-  destruct l as [nm t tl op cv lg]. cbn [ll_type ll_tlen ll_optional ll_name ll_conv ll_logical] in *.
+  cbn [se_nchildren se_type se_tlen se_rep se_name se_conv se_logical se_scale se_prec]. rewrite ptype_of_to.
+  destruct l as [nm t tl op cv lg sc pr]. cbn [ll_type ll_tlen ll_optional ll_name ll_conv ll_logical ll_scale ll_prec] in *.
   destruct t; cbn [rbind]; try (subst tl; destruct op; reflexivity).
   destruct (Z.leb_spec (Z.of_N tl) 0) as [X|X]; [lia|]. cbn [rbind]. rewrite N2Z.id. destruct op; reflexivity.
 Qed.
